@@ -141,7 +141,10 @@ func harness_C02_crash() {
 	}
 
 	// ---- restart ----
-	rec := &scriptTarget{name: "rec", faultFree: true, partial: true}
+	// post = 1: the first attempt after the restart meets per-recipient
+	// failures again and a second attempt follows (no further crash)
+	post := verifParam("post", 0) == 1
+	rec := &scriptTarget{name: "rec", faultFree: !post, onlyStatusFaults: post, partial: true}
 	bounce2 := &scriptTarget{name: "bounce2", faultFree: true}
 	crashed2 := verifCatchCrash(func() { c02Recover(dir, rec, bounce2, maxTries) })
 	if crashed2 {
@@ -152,7 +155,33 @@ func harness_C02_crash() {
 		rec.deliveries = append(rec.deliveries, rec2.deliveries...)
 		verifCover("C02.crash-during-recovery")
 	}
+	var rec3 *scriptTarget
+	if post && !crashed2 {
+		rec3 = &scriptTarget{name: "rec3", faultFree: true, partial: true}
+		q3 := c01Queue(dir, rec3, bounce2, maxTries, &c01Wheel{})
+		if meta, hdr, body, err := q3.openMessage("msg1"); err == nil {
+			q3.tryDelivery(meta, hdr, body)
+			verifCover("C02.second-attempt-after-restart")
+		}
+		for _, r := range rcpts {
+			if rec.committedCount(r) > 0 {
+				for _, d := range rec3.deliveries {
+					if contains(d.offered, r) {
+						verifLog("rcpt", r, "committed by the first attempt after the restart and offered again by the second")
+						verifFail("C02.resent-after-later-attempt-began")
+					}
+				}
+			}
+		}
+	}
 	attemptedNow := func(r string) bool {
+		if rec3 != nil {
+			for _, d := range rec3.deliveries {
+				if contains(d.offered, r) {
+					return true
+				}
+			}
+		}
 		for _, d := range rec.deliveries {
 			if contains(d.offered, r) {
 				return true
